@@ -31,9 +31,12 @@ func main() {
 	only := fs.String("only", "", "only verify functions whose name contains this")
 	verbose := fs.Bool("v", false, "verbose")
 	corpus := fs.String("corpus", "", "passG: corpus directory list (comma separated)")
+	writeBindings := fs.Bool("write-bindings", false, "record the locals of the functions under contract in /verif/bindings.json")
+	bindingsFile = "/verif/bindings.json"
 	thorough := fs.Bool("thorough", false, "thorough tier: role verification of every generation variant, random flow corpus")
 	seed := fs.Int64("seed", 0, "seed for the random part of the thorough corpus")
 	fs.Parse(os.Args[2:])
+	recordBindings = *writeBindings
 	if *scratch == "" {
 		d, err := os.MkdirTemp(scratchBase(), "cffvc.")
 		if err != nil {
@@ -85,6 +88,11 @@ func main() {
 	}
 	summarize(res, *verbose)
 }
+
+var (
+	bindingsFile   string
+	recordBindings bool
+)
 
 func scratchBase() string {
 	if d := os.Getenv("VERIF_SCRATCH"); d != "" {
@@ -189,6 +197,7 @@ func passS(repo string, cfg *vc.SolverConfig, only string) (*vc.PassResult, erro
 		}
 	}
 	filterBound(all, only)
+	vc.ApplyBindings(x, lr, all, bindingsFile, recordBindings)
 	configureS(x)
 	vc.VerifyAll(x, all, res)
 	if only == "" {
@@ -247,6 +256,7 @@ func passK(repo string, cfg *vc.SolverConfig, only string) (*vc.PassResult, erro
 		configureK(x)
 		all := vc.BindSpecs(x, lr, pc.pkg, cf, res)
 		filterBound(all, only)
+		vc.ApplyBindings(x, lr, all, bindingsFile, recordBindings)
 		vc.VerifyAll(x, all, res)
 		totalPaths += x.Paths()
 		lastX = x
